@@ -244,3 +244,104 @@ def add_coordinates(job, g, profile):
     elif "density" in job["opts"]:
         pass
     return True
+
+
+# ----------------------------------------------------------------------------- further option kinds
+def add_user_grid(job, g):
+    """-grid: a file with start points (inside the box)"""
+    box = job["opts"].get("box")
+    if box is None:
+        return False
+    n = g.randint(30, 200)
+    job["grid_points"] = [[round(g.uniform(0, box[d] * 0.999), 4) for d in range(3)] for _ in range(n)]
+    return True
+
+
+def add_start(job, g):
+    """-start <mol_name>#<mol_idx>-<resname>#<resid> for one or two molecule types"""
+    spec = job["spec"]
+    mts = {m["name"]: m for m in spec["moltypes"]}
+    used = sorted({n for n, _ in spec["molecules"]})
+    specs = []
+    for name in g.sample(used, g.randint(1, min(2, len(used)))):
+        mt = mts[name]
+        k = g.randrange(len(mt["residues"]))
+        if g.random() < 0.5:
+            specs.append(f"{name}-{mt['residues'][k]}#{k + 1}")
+        else:
+            # by molecule index
+            idx = 0
+            cand = []
+            for n, c in spec["molecules"]:
+                for _ in range(c):
+                    if n == name:
+                        cand.append(idx)
+                    idx += 1
+            specs.append(f"{name}#{g.choice(cand)}-{mt['residues'][k]}#{k + 1}")
+    job["opts"]["start"] = specs
+    return True
+
+
+def add_user_templates(job, g):
+    """[ template ] and/or [ volumes ] entries for some residue types (without virtual sites)"""
+    spec = job["spec"]
+    names = [n for n, rt in sorted(spec["restypes"].items()) if not rt["vsites"]]
+    used = set()
+    for mt in spec["moltypes"]:
+        if any(n == mt["name"] for n, _ in spec["molecules"]):
+            used.update(mt["residues"])
+            # overridden residue types differ in content: no user template for those names
+            names = [n for n in names if n not in mt.get("restype_override", {})]
+    names = [n for n in names if n in used]
+    if not names:
+        return False
+    templates = {}
+    volumes = {}
+    user_templates = {}
+    user_volumes = {}
+    for n in g.sample(names, g.randint(1, min(2, len(names)))):
+        rt = spec["restypes"][n]
+        what = g.choice(["template", "volume", "both"])
+        if what in ("template", "both"):
+            atoms = {}
+            ut = {}
+            for k, a in enumerate(rt["atoms"]):
+                xyz = [round(0.3 * k + g.uniform(-0.1, 0.1), 3), round(g.uniform(-0.2, 0.2), 3), round(g.uniform(-0.2, 0.2), 3)]
+                atoms[a["name"]] = [a["atype"], xyz]
+                ut[a["name"]] = xyz
+            bonds = [[rt["atoms"][a]["name"], rt["atoms"][b]["name"]] for a, b, *_ in rt["bonds"]]
+            bonds += [[rt["atoms"][a]["name"], rt["atoms"][b]["name"]] for a, b, *_ in rt["constraints"]]
+            templates[n] = {"atoms": atoms, "bonds": bonds}
+            user_templates[n] = ut
+        if what in ("volume", "both"):
+            v = round(g.uniform(0.35, 0.7), 3)
+            volumes[n] = v
+            user_volumes[n] = v
+    job["bld_templates"] = templates
+    job["bld_volumes"] = volumes
+    job["user_templates"] = user_templates
+    job["user_volumes"] = user_volumes
+    return True
+
+
+def add_resname_clash(job, g):
+    """equal residue names with different content in different molecule types / permuted atom names"""
+    from gen import topgen
+    spec = job["spec"]
+    if len(spec["moltypes"]) < 2:
+        return False
+    mt = spec["moltypes"][-1]
+    rn = g.choice(sorted(set(mt["residues"])))
+    base = spec["restypes"][rn]
+    mode = g.choice(["other_content", "permuted_names"])
+    if mode == "other_content":
+        new = topgen.gen_restype(g, rn, [a["name"] for a in spec["atypes"]], 7, allow_vs=False)
+    else:
+        new = {k: (list(v) if isinstance(v, list) else v) for k, v in base.items()}
+        names = [a["name"] for a in base["atoms"]]
+        perm = names[:]
+        g.shuffle(perm)
+        new["atoms"] = [dict(a, name=perm[i]) for i, a in enumerate(base["atoms"])]
+    mt["restype_override"] = {rn: new}
+    job["resname_clash"] = mode
+    return True
